@@ -550,7 +550,7 @@ func buildCLIs(workDir string) (string, string, error) {
 			os.WriteFile(ovFile, ovData, 0o644)
 			ovArgs = []string{"-overlay", ovFile}
 		}
-		for _, b := range []struct{ out, dir, pkg string }{{cliJD, "/repo/v2", "./jd"}, {cliTop, "/repo", "."}} {
+		for _, b := range []struct{ out, dir, pkg string }{{cliJD, repoRoot + "/v2", "./jd"}, {cliTop, repoRoot, "."}} {
 			args := append(append([]string{"build"}, ovArgs...), "-o", b.out, b.pkg)
 			cmd := exec.Command("go", args...)
 			cmd.Dir = b.dir
